@@ -1481,14 +1481,23 @@ def _join(e1, e2, b, f):
                 u = frozenset(v) | frozenset(e2[k])
                 if len(u) < 3:
                     out[k] = u
+        elif _MAY(k):
+            out[k] = v          # may-facts (taint, "this state was approximated"): true on either side is true in the join
         else:
             if e2.get(k) != v:
                 raise AnalysisBroken("more than %d distinct states at block %s of %s and they differ in %s (state cap)" % (Explorer.CAP, b.name, f.name, k))
             out[k] = v
     for k, v in e2.items():
         if k[0] not in ("i", "a", "rel") and k not in e1:
+            if _MAY(k):
+                out[k] = v
+                continue
             raise AnalysisBroken("more than %d distinct states at block %s of %s and they differ in %s (state cap)" % (Explorer.CAP, b.name, f.name, k))
     return out
+
+
+def _MAY(k):
+    return k[0] == "t" or (k[0] == "flag" and len(k) > 1 and k[1] in ("approx", "approx_dep"))
 
 
 def _subsumes(mg, env):
@@ -1509,6 +1518,8 @@ def _subsumes(mg, env):
         elif k[0] == "rel":
             if k not in env or not frozenset(env[k]) <= frozenset(v):
                 return False
+        elif _MAY(k):
+            continue
         elif env.get(k) != v:
             return False
     for k in env:
